@@ -14,7 +14,11 @@
  *   mode <seq|thr|vs>
  *   logger sync | logger async <capacity>
  *   clock <sec> <nsec>
- *   h <cap|file|console|conplain|rot|trot> <level> <simple|complicated>
+ *   h <cap|file|console|conplain|rot|trot|rots|trots> <level> <simple|complicated|raw>
+ *       rots  = size-rotating handler with a small max_bytes (many rotations during the run)
+ *       trots = time-rotating handler, unit SEC mod 2 (rotates as the per-call clock advances)
+ *       their stream = all backup / period files in chronological order + the live file
+ *   tick <sec>                                  (thr, vs: call k of every thread happens at clock + k*tick)
  *   setlevel <handler index> <level>            (after add_handler)
  *   failmalloc <k>                              (seq: k-th tracked malloc of the next log fails)
  *   log <level> <srcline> <s|ds|lit> <hex text> (seq)
@@ -58,18 +62,21 @@ void c16_acct_fail_at(int k);
 static long long g_sec = 1700000000LL;
 static long g_nsec = 123456789L;
 static __thread long g_ltid = 4242;
+static __thread long long g_tls_sec = -1;      /* per-call clock of a producer thread (thr / vs) */
+static int g_tick;
 
 int __real_timespec_get(struct timespec *ts, int base);
 int __wrap_timespec_get(struct timespec *ts, int base)
 {
 	(void)base;
-	ts->tv_sec = (time_t)g_sec; ts->tv_nsec = g_nsec;
+	ts->tv_sec = (time_t)(g_tls_sec >= 0 ? g_tls_sec : g_sec); ts->tv_nsec = g_nsec;
 	return TIME_UTC;
 }
 time_t __wrap_time(time_t *t)
 {
-	if (t) *t = (time_t)g_sec;
-	return (time_t)g_sec;
+	time_t v = (time_t)(g_tls_sec >= 0 ? g_tls_sec : g_sec);
+	if (t) *t = v;
+	return v;
 }
 long __real_syscall(long n, ...);
 long __wrap_syscall(long n, ...)
@@ -94,24 +101,68 @@ static FILE *g_fp[MAXH * 2 + 2];
 static int g_fp_h[MAXH * 2 + 2];
 static int g_nfp;
 static int g_chunk_fwrite;
+static FILE *g_closed[64];
+static int g_closed_h[64];
+static int g_nclosed;
+static int handler_of_fp(FILE *fp);    /* current stream of a handler (rotating handlers reopen) */
+static int closed_handler_of_fp(FILE *fp)
+{
+	for (int i = 0; i < g_nclosed; i++) if (g_closed[i] == fp) return g_closed_h[i];
+	return -1;
+}
 size_t __real_fwrite(const void *p, size_t sz, size_t n, FILE *fp);
 size_t __wrap_fwrite(const void *p, size_t sz, size_t n, FILE *fp)
 {
 	if (g_chunk_fwrite && sz == 1 && n >= 2) {
-		int h = -1;
-		for (int i = 0; i < g_nfp; i++) if (g_fp[i] == fp) h = g_fp_h[i];
+		int hc = vs_active() ? closed_handler_of_fp(fp) : -1;
+		if (hc >= 0) {
+			/* a stale stream: the handler closed it during a rotation */
+			vs_note("fwclosed %d", hc);
+			return n;
+		}
+		int h = handler_of_fp(fp);
 		if (h >= 0) {
 			size_t a = n / 2;
 			if (vs_active()) vs_note("fw1 %d", h);
 			size_t r1 = __real_fwrite(p, 1, a, fp);
 			fflush(fp);
 			if (vs_active()) vs_yield_point("fwrite"); else sched_yield();
-			if (vs_active()) vs_note("fw2 %d", h);
+			if (vs_active()) {
+				/* the stream may have been closed while this thread was descheduled */
+				if (closed_handler_of_fp(fp) >= 0) { vs_note("fwclosed %d", h); return n; }
+				vs_note("fw2 %d", h);
+			}
 			size_t r2 = __real_fwrite((const char *)p + a, 1, n - a, fp);
 			return r1 + r2;
 		}
 	}
 	return __real_fwrite(p, sz, n, fp);
+}
+/* rotation window: fclose ... fopen of a handler stream are scheduling points under the
+ * scheduler (the handler's fp is NULL in between).  Under the scheduler the closed stream is
+ * flushed but not released until the end of the case, so that a stale use shows up as a note
+ * in the trace instead of a crash. */
+int __real_fclose(FILE *fp);
+int __wrap_fclose(FILE *fp)
+{
+	int h = (g_chunk_fwrite && vs_active()) ? handler_of_fp(fp) : -1;
+	if (h >= 0) {
+		fflush(fp);
+		if (g_nclosed < 64) { g_closed[g_nclosed] = fp; g_closed_h[g_nclosed] = h; g_nclosed++; }
+		vs_note("rotop %d fclose", h);
+		vs_yield_point("fclose");
+		return 0;
+	}
+	return __real_fclose(fp);
+}
+FILE *__real_fopen(const char *path, const char *mode);
+FILE *__wrap_fopen(const char *path, const char *mode)
+{
+	if (vs_active() && g_chunk_fwrite) {
+		vs_note("rotop - fopen");
+		vs_yield_point("fopen");
+	}
+	return __real_fopen(path, mode);
 }
 
 /* the async logger's writer thread becomes a scheduled thread in vs mode */
@@ -231,6 +282,19 @@ static muggle_sync_logger_t sync_logger;
 static muggle_async_logger_t async_logger;
 static muggle_logger_t *logger;
 
+static int handler_of_fp(FILE *fp)
+{
+	if (!fp) return -1;
+	for (int i = 0; i < nh; i++) {
+		if (!h_ok[i]) continue;
+		if (strcmp(hs[i].kind, "file") == 0 && H[i].file.fp == fp) return i;
+		if (strncmp(hs[i].kind, "rot", 3) == 0 && H[i].rot.fp == fp) return i;
+		if (strncmp(hs[i].kind, "trot", 4) == 0 && H[i].trot.fp == fp) return i;
+	}
+	for (int i = 0; i < g_nfp; i++) if (g_fp[i] == fp) return g_fp_h[i];   /* stdout / stderr of a console handler */
+	return -1;
+}
+
 static void hexout(const unsigned char *p, size_t n)
 {
 	static const char *d = "0123456789abcdef";
@@ -257,7 +321,12 @@ static void case_begin(void)
 	mkdir(scratch, 0777);
 	g_mode = M_SEQ; is_async = 0; capacity = 0; nh = 0;
 	for (int i = 0; i < nops; i++) { if (ops[i].text) __real_free(ops[i].text); ops[i].text = NULL; }
-	nops = 0; th_n = 0; th_msgs = 0; th_paylen = 0; lossy = 0;
+	nops = 0; th_n = 0; th_msgs = 0; th_paylen = 0; lossy = 0; g_tick = 0; g_nclosed = 0;
+	{	/* empty the scratch directory of this process */
+		char cmd[700];
+		snprintf(cmd, sizeof(cmd), "rm -f %s/*", scratch);
+		if (system(cmd) != 0) { }
+	}
 	g_sec = 1700000000LL; g_nsec = 123456789L;
 	strcpy(sched_spec, "rand 1 50 0 0");
 }
@@ -301,6 +370,8 @@ static void case_line(char *line)
 		}
 	} else if (strcmp(op, "threads") == 0) {
 		sscanf(line, "%*s %d %d %d", &th_n, &th_msgs, &th_paylen);
+	} else if (strcmp(op, "tick") == 0) {
+		sscanf(line, "%*s %d", &g_tick);
 	} else if (strcmp(op, "lossy") == 0) {
 		lossy = 1;
 	} else if (strcmp(op, "sched") == 0) {
@@ -370,15 +441,18 @@ static int setup(void)
 			H[i].cap.len = 0; H[i].cap.nret = 0;
 		} else if (strcmp(hs[i].kind, "file") == 0) {
 			rc = muggle_log_file_handler_init(&H[i].file, h_path[i], "wb");
-			if (rc == 0) reg_fp(H[i].file.fp, i);
+
 		} else if (strcmp(hs[i].kind, "console") == 0 || strcmp(hs[i].kind, "conplain") == 0) {
 			rc = muggle_log_console_handler_init(&H[i].con, strcmp(hs[i].kind, "console") == 0);
 			reg_fp(stdout, i); reg_fp(stderr, i);
 		} else if (strcmp(hs[i].kind, "rot") == 0) {
-			char p2[640];
-			for (int k = 1; k <= 3; k++) { snprintf(p2, sizeof(p2), "%s.%d", h_path[i], k); remove(p2); }
 			rc = muggle_log_file_rotate_handler_init(&H[i].rot, h_path[i], 1u << 30, 2);
-			if (rc == 0) reg_fp(H[i].rot.fp, i);
+		} else if (strcmp(hs[i].kind, "rots") == 0) {
+			/* many rotations during the run; enough backups that none is discarded */
+			rc = muggle_log_file_rotate_handler_init(&H[i].rot, h_path[i],
+				g_mode == M_VS ? 64 : 400, g_mode == M_VS ? 24 : 600);
+		} else if (strcmp(hs[i].kind, "trots") == 0) {
+			rc = muggle_log_file_time_rot_handler_init(&H[i].trot, h_path[i], MUGGLE_LOG_TIME_ROTATE_UNIT_SEC, 2, false);
 		} else if (strcmp(hs[i].kind, "trot") == 0) {
 			struct tm t; time_t s = (time_t)g_sec; char p2[700];
 			gmtime_r(&s, &t);
@@ -386,7 +460,6 @@ static int setup(void)
 			remove(p2);
 			rc = muggle_log_file_time_rot_handler_init(&H[i].trot, h_path[i], MUGGLE_LOG_TIME_ROTATE_UNIT_DAY, 1, false);
 			snprintf(h_path[i], sizeof(h_path[i]), "%s", p2);
-			if (rc == 0) reg_fp(H[i].trot.fp, i);
 		}
 		h_ok[i] = rc == 0;
 		if (rc != 0) { printf("hinit %d fail\n", i); continue; }
@@ -422,6 +495,44 @@ static void dump_file(const char *tag, int i, const char *path)
 	printf("\n");
 }
 
+#include <dirent.h>
+static int cmp_name(const void *a, const void *b) { return strcmp((const char *)a, (const char *)b); }
+/* rotating handlers: every backup / period file in chronological order, then the live file */
+static void dump_concat(int i, int by_number)
+{
+	static unsigned char *buf;
+	static char names[1024][80];
+	size_t cap = 16u << 20, n = 0;
+	int nn = 0;
+	char prefix[64], path[700];
+	if (!buf) buf = (unsigned char *)__real_malloc(cap);
+	snprintf(prefix, sizeof(prefix), "h%d.log.", i);
+	DIR *d = opendir(scratch);
+	struct dirent *e;
+	while (d && (e = readdir(d)) != NULL)
+		if (strncmp(e->d_name, prefix, strlen(prefix)) == 0 && nn < 1024) {
+			if (by_number) snprintf(names[nn], 80, "%09ld", 999999999L - atol(e->d_name + strlen(prefix)));   /* oldest = highest number */
+			else snprintf(names[nn], 80, "%s", e->d_name + strlen(prefix));
+			nn++;
+		}
+	if (d) closedir(d);
+	qsort(names, (size_t)nn, 80, cmp_name);
+	for (int k = 0; k <= nn; k++) {
+		if (k < nn) {
+			if (by_number) snprintf(path, sizeof(path), "%s/%s%ld", scratch, prefix, 999999999L - atol(names[k]));
+			else snprintf(path, sizeof(path), "%s/%s%s", scratch, prefix, names[k]);
+		} else {
+			if (!by_number) break;                      /* time rotation: the live file is one of the period files */
+			snprintf(path, sizeof(path), "%s/h%d.log", scratch, i);
+		}
+		FILE *f = fopen(path, "rb");
+		if (f) { n += fread(buf + n, 1, cap - n, f); fclose(f); }
+	}
+	printf("file %d ", i);
+	hexout(buf, n);
+	printf("\n");
+}
+
 static void dump_outputs(void)
 {
 	for (int i = 0; i < nh; i++) {
@@ -440,6 +551,10 @@ static void dump_outputs(void)
 		} else if (strncmp(hs[i].kind, "con", 3) == 0) {
 			dump_file("out", i, con_out_path);
 			dump_file("err", i, con_err_path);
+		} else if (strcmp(hs[i].kind, "rots") == 0) {
+			dump_concat(i, 1);
+		} else if (strcmp(hs[i].kind, "trots") == 0) {
+			dump_concat(i, 0);
 		} else {
 			dump_file("file", i, h_path[i]);
 		}
@@ -535,6 +650,7 @@ static void producer_body(int t)
 	g_ltid = 100 + t;
 	for (int k = 0; k < th_msgs; k++) {
 		make_payload(t, k, payload);
+		g_tls_sec = g_sec + (long long)k * g_tick;
 		if (vs_active()) vs_note("call %d %d", k, thr_level(t, k));
 		muggle_log_src_loc_t loc = { SRC_FILE, (unsigned)(1000 + t), SRC_FUNC };
 		logger->log(logger, thr_level(t, k), &loc, "%s", payload);
@@ -574,6 +690,8 @@ static void run_thr(void)
 static void finish(int vs_status)
 {
 	teardown_handlers();
+	for (int i = 0; i < g_nclosed; i++) __real_fclose(g_closed[i]);   /* streams kept open under the scheduler */
+	g_nclosed = 0;
 	c16_acct_end();
 	printf("F destroyed=%d live=%d\n", destroyed, c16_acct_live());
 	dump_outputs();
@@ -626,6 +744,8 @@ static void case_end(void)
 			for (int i = 0; i < nh; i++) {
 				if (!h_ok[i]) continue;
 				if (strcmp(hs[i].kind, "file") == 0 && H[i].file.fp) fflush(H[i].file.fp);
+				if (strncmp(hs[i].kind, "rot", 3) == 0 && H[i].rot.fp) fflush(H[i].rot.fp);
+				if (strncmp(hs[i].kind, "trot", 4) == 0 && H[i].trot.fp) fflush(H[i].trot.fp);
 			}
 			dump_outputs();
 			printf("END\n");
